@@ -22,6 +22,15 @@ fn extensions() -> Extensions {
         r.headers_mut().insert("content-type", HeaderValue::from_static("image/png"));
         FatResponse::cache(r)
     }));
+    // several values under one header name (two cookies, two links): every one of them is an end-to-end header
+    ext.add_prepare_single("/cookies", prepare!(_r, _h, _p, _a, {
+        let mut r = Response::new(Bytes::from_static(b"two cookies and two links ......................................"));
+        r.headers_mut().append("set-cookie", HeaderValue::from_static("session=abc; HttpOnly"));
+        r.headers_mut().append("set-cookie", HeaderValue::from_static("theme=dark"));
+        r.headers_mut().append("link", HeaderValue::from_static("</a.css>; rel=preload"));
+        r.headers_mut().append("link", HeaderValue::from_static("</b.js>; rel=preload"));
+        FatResponse::cache(r)
+    }));
     ext.add_prepare_single("/echo", prepare!(req, _h, _p, _a, {
         let b = req.body_mut().read_to_bytes(1000).await.unwrap_or_default();
         let mut out = format!("len={};", b.len()).into_bytes();
@@ -60,6 +69,8 @@ fn start_testing_server(rt: &tokio::runtime::Runtime) -> kvarn_testing::Server {
 fn kind(k: &str) -> (&'static str, &'static str, Vec<(&'static str, &'static str)>, Option<Vec<u8>>) {
     match k {
         "get" => ("GET", "/hello", vec![], None),
+        "cookies" => ("GET", "/cookies", vec![], None),
+        "headcookies" => ("HEAD", "/cookies", vec![("accept-encoding", "gzip")], None),
         "head" => ("HEAD", "/hello", vec![], None),
         "getgz" => ("GET", "/hello", vec![("accept-encoding", "gzip")], None),
         "getbr" => ("GET", "/hello", vec![("accept-encoding", "br, zstd;q=0.5")], None),
@@ -84,7 +95,7 @@ fn kind(k: &str) -> (&'static str, &'static str, Vec<(&'static str, &'static str
         _ => unreachable!("{k}"),
     }
 }
-const KINDS: [&str; 22] = ["post20k", "post20k1", "post50k", "post200k", "get", "head", "getgz", "getbr", "headgz", "uncached", "empty", "missing", "headmissing", "range", "range416", "unsafe", "png406", "cors", "options", "post", "postbig", "put"];
+const KINDS: [&str; 24] = ["cookies", "headcookies", "post20k", "post20k1", "post50k", "post200k", "get", "head", "getgz", "getbr", "headgz", "uncached", "empty", "missing", "headmissing", "range", "range416", "unsafe", "png406", "cors", "options", "post", "postbig", "put"];
 
 pub struct Pair {
     rt: tokio::runtime::Runtime,
@@ -122,7 +133,7 @@ impl Group for Pair {
         "c20.pair"
     }
     fn rule(&self) -> &'static str {
-        "a TLS server built like kvarn_testing::ServerBuilder; reqwest clients pinned to http1_only and to HTTP/2 (ALPN h2); sequences of 1-8 requests over 18 kinds (cached/uncached, HEAD, gzip/br/zstd, ranges 206/416, 404, 400, 406, CORS 403, OPTIONS, POST/PUT bodies up to 3000 bytes echoed by the handler, bodies of 20 000 / 20 001 / 50 000 / 200 000 bytes to a handler that reads at most 20 000 — many DATA frames / segments, none as large as the limit) sent through both; status, end-to-end headers (normalised by the model's `normalise`: drops connection, keep-alive, content-length, alt-svc) and body bytes compared pairwise; oracle: equality, and the protocol version each client reports; non-trivial = the sequence has a non-GET or an error or a compressed response"
+        "a TLS server built like kvarn_testing::ServerBuilder; reqwest clients pinned to http1_only and to HTTP/2 (ALPN h2); sequences of 1-8 requests over 24 kinds (cached/uncached, a response with two set-cookie and two link headers, HEAD, gzip/br/zstd, ranges 206/416, 404, 400, 406, CORS 403, OPTIONS, POST/PUT bodies up to 3000 bytes echoed by the handler, bodies of 20 000 / 20 001 / 50 000 / 200 000 bytes to a handler that reads at most 20 000 — many DATA frames / segments, none as large as the limit) sent through both; status, end-to-end headers (normalised by the model's `normalise`: drops connection, keep-alive, content-length, alt-svc) and body bytes compared pairwise; oracle: equality, and the protocol version each client reports; non-trivial = the sequence has a non-GET or an error or a compressed response"
     }
     fn parallel(&self) -> bool {
         false
